@@ -307,6 +307,7 @@ pub fn parts() -> Vec<Box<dyn PartDyn>> {
             shrink_budget: 2000,
             confirm_runs: 1,
             fuzz: Some(fuzz_case),
+            watchdog_s: 0,
         }),
         Box::new(Part::<Case> {
             name: "e2e",
@@ -319,6 +320,7 @@ pub fn parts() -> Vec<Box<dyn PartDyn>> {
             shrink_budget: 100,
             confirm_runs: 2,
             fuzz: None,
+            watchdog_s: 60,
         }),
         Box::new(Part::<crate::checks::c17::Case> {
             name: "hb-timing",
@@ -331,6 +333,7 @@ pub fn parts() -> Vec<Box<dyn PartDyn>> {
             shrink_budget: 0,
             confirm_runs: 2,
             fuzz: None,
+            watchdog_s: 60,
         }),
     ]
 }
